@@ -1,9 +1,11 @@
 (* C17 — correspondence check and oracle, evaluated by vm_compute on what the Go harness observed on the real
    ReservationManager, NodeClaim.CanAdd/Add/FinalizeScheduling, Scheduler.Solve and AllocationTracker. *)
-From KV Require Import C17.Model C17.Spec C17.DraModel.
+From KV Require Import C17.Model C17.Spec C17.DraModel C17.DraSpec.
 Open Scope string_scope.
 Open Scope Z_scope.
 Open Scope list_scope.
+
+Definition xobs := (dout * list bool * list (key * Z) * list (key * Z) * list (ncid * ity * key * Z))%type.
 
 Inductive nobs :=
 | NPlaced (ofs : list rid) (remaining : list string) (cands : list rid)
@@ -15,7 +17,11 @@ Inductive case :=
         (obs : list (nobs * snapshot)) (fin : list (host * option (list rid) * bool))
 | CaseS (md : mode) (offs : list (string * rid * Z)) (claims : list fclaim) (snap : snapshot)
 | CaseC (outs : list tres) (chosen : option Z) (roe : bool)
-| CaseT (pre : list string) (ops : list dop) (obs : list dobs).
+| CaseT (pre : list string) (ops : list dop) (obs : list dobs)
+| CaseX (pre udevs : list string) (uncs : list ncid) (uits : list ity) (ks : list key)
+        (rem0 capb tb : list (key * Z)) (validate : bool) (ops : list xop) (obs : list xobs)
+| CaseF (pre : list string) (budgets tbudgets : list (key * Z)) (recs : list arec)
+| CaseP (req : option Z) (total : Z) (pol : option policy) (obs : option Z).
 
 (* ---- model state against a snapshot, over the finite universe of names the case mentions ---- *)
 Definition snap_matches (m : mgr) (hs : list host) (rs : list rid) (s : snapshot) : bool :=
@@ -116,6 +122,64 @@ Definition last_snap (obs : list (nobs * snapshot)) : snapshot :=
 Definition tpl_offs (tpls : list (freq * list itype)) : list (string * rid * Z) :=
   flat_map (fun t => catalog_offs (snd t)) tpls.
 
+(* ---- DRA tracker with budgets ---- *)
+
+Definition observeU (t : tracker) (udevs : list string) (uncs : list ncid) (uits : list ity) : list bool :=
+  flat_map (fun d => flat_map (fun tm => flat_map (fun n => map (fun it => dis_allocated t (mkDev d tm) n it) uits) uncs)
+                              [false; true]) udevs.
+
+Definition assoc0 (k : key) (l : list (key * Z)) : Z := match assoc k l with Some v => v | None => 0 end.
+
+Fixpoint tassoc0 (n : ncid) (it : ity) (k : key) (l : list (ncid * ity * key * Z)) : Z :=
+  match l with
+  | [] => 0
+  | (n', it', k', v) :: t => if String.eqb n n' && String.eqb it it' && String.eqb k k' then v else tassoc0 n it k t
+  end.
+
+Definition xmatches (x : xtracker) (udevs : list string) (uncs : list ncid) (uits : list ity) (ks : list key)
+           (rem0 : list (key * Z)) (o : xobs) : bool :=
+  let '(_, bits, rem, infl, tused) := o in
+  bools_eqb bits (observeU (x_excl x) udevs uncs uits) &&
+  forallb (fun kv => snd kv =? assoc0 (fst kv) rem0 - l_used (x_cnt x) (fst kv)) rem &&
+  forallb (fun kv => match assoc (fst kv) rem with Some _ => true | None => false end) rem0 &&
+  forallb (fun k => assoc0 k infl =? l_used (x_cap x) k) ks &&
+  forallb (fun n => forallb (fun it => forallb (fun k => tassoc0 n it k tused =? x_tmpl x n it k) ks) uits) uncs.
+
+(* the allocator's proposal judged against the tracker model: guarded exclusive devices, counters, capacity *)
+Definition proposal_ok (x : xtracker) (ks : list key) (rem0 capb tb : list (key * Z)) (o : xop) : bool :=
+  match o with
+  | XCommit n devs cnt cap tmpl =>
+      guarded (x_excl x) n devs &&
+      lguard_b (fun k => assoc0 k rem0) ks (x_cnt x) cnt &&
+      lguard_b (fun k => assoc0 k capb) ks (x_cap x) cap &&
+      nodup_b (map fst tmpl) &&
+      forallb (fun p => forallb (fun k => (0 <=? look k (snd p)) && (x_tmpl x n (fst p) k + look k (snd p) <=? assoc0 k tb)) ks) tmpl
+  | _ => true
+  end.
+
+Fixpoint checkX (udevs : list string) (uncs : list ncid) (uits : list ity) (ks : list key) (rem0 capb tb : list (key * Z))
+         (validate : bool) (x : option xtracker) (ops : list xop) (obs : list xobs) : bool * bool :=
+  match ops, obs with
+  | [], [] => (true, true)
+  | o :: ops', ob :: obs' =>
+      match x with
+      | None => (false, true)
+      | Some x0 =>
+          let '(out, _, rem, infl, tused) := ob in
+          let '(x', out') := xstep x0 o in
+          let here := dout_eqb out out' &&
+                      match x' with Some x1 => xmatches x1 udevs uncs uits ks rem0 ob | None => true end in
+          let orc := (negb validate || proposal_ok x0 ks rem0 capb tb o) &&
+                     match out with DPanic => negb validate | _ => budgets_ok_b rem infl capb tused tb end in
+          let '(c, r) := checkX udevs uncs uits ks rem0 capb tb validate x' ops' obs' in
+          (here && c, orc && r)
+      end
+  | _, _ => (false, true)
+  end.
+
+Definition opt_eqb (a b : option Z) : bool :=
+  match a, b with Some x, Some y => x =? y | None, None => true | _, _ => false end.
+
 Definition check_case (c : case) : list string :=
   match c with
   | CaseM offs ops obs =>
@@ -168,6 +232,14 @@ Definition check_case (c : case) : list string :=
   | CaseT pre ops obs =>
       let '(corr, orc) := checkT pre ops obs in
       (if corr then [] else ["corr:allocation-tracker"]) ++ (if orc then [] else ["oracle:exclusive-device-two-owners"])
+  | CaseX pre udevs uncs uits ks rem0 capb tb validate ops obs =>
+      let '(corr, orc) := checkX udevs uncs uits ks rem0 capb tb validate (Some (xinit pre)) ops obs in
+      (if corr then [] else ["corr:tracker-budgets"]) ++ (if orc then [] else ["oracle:counters-or-capacity-overconsumed"])
+  | CaseF pre budgets tbudgets recs =>
+      if final_ok_b pre budgets tbudgets recs then [] else ["oracle:final-allocation-overcommits-a-device"]
+  | CaseP req total pol obs =>
+      let c := consumed_capacity req total pol in
+      if opt_eqb obs (if violates_policy c pol then None else Some c) then [] else ["corr:capacity-request-policy"]
   end.
 
 Definition check_all (cs : list (Z * case)) : list (Z * string) :=
